@@ -62,14 +62,19 @@ func init() {
 			replies("wire-binary-pipeline2", map[string]int64{"pipeline": 2}, []string{"c08-", "c02-"}, "wire level (see C08): pipeline of 2 binary requests through parser, Loop, 9 orchestrator configurations and the binary responder"),
 			replies("wire-text-pipeline2", map[string]int64{"pipeline": 2, "text": 1}, []string{"c08-", "c02-"}, "the same over the text protocol"),
 		}})
+	deep := map[string]int64{"nk": 3, "len0": 3, "dlen": 2}
+	deepBounds := "as quick with 3 keys, stored values 3 bytes, written values 2 bytes"
 	reg(Check{ID: "C02", Level: "model_checking", Assumptions: orcaAssumptions,
-		Quick: []Job{orcaStep([]string{"c02-"}, nil, stepBounds)}})
+		Quick:    []Job{orcaStep([]string{"c02-"}, nil, stepBounds)},
+		Thorough: []Job{func() Job { j := orcaStep([]string{"c02-"}, deep, deepBounds); j.Name = "ZZOrcaStep-3keys"; return j }()}})
 	c09chunk := func(name string, ls int64) Job {
 		return Job{Pkg: "./handlers/memcached/chunked", Func: "ZZChunkedStep", Setup: "ZZSetup", Name: name, Params: map[string]int64{"lenset": ls}, Only: []string{"c09-"}, Reach: []string{"step-done"},
 			Bounds: "real chunked.Handler over the memcached model, one command with a full 32-bit symbolic TTL: afterwards the metadata entry and every chunk carry the deadline the reference map computes, and the Exptime field inside the metadata equals it"}
 	}
 	reg(Check{ID: "C09", Level: "model_checking", Assumptions: append(append([]string{}, orcaAssumptions...), "chunked handler jobs: in-process memcached model (A6), pre-state one complete value per key, clock frozen during the command"),
-		Quick: []Job{orcaStep([]string{"c09-"}, nil, stepBounds), c09chunk("chunked-small", 0), c09chunk("chunked-border", 1)}})
+		Quick: []Job{orcaStep([]string{"c09-"}, nil, stepBounds), c09chunk("chunked-small", 0), c09chunk("chunked-border", 1)},
+		Thorough: []Job{func() Job { j := orcaStep([]string{"c09-"}, deep, deepBounds); j.Name = "ZZOrcaStep-3keys"; return j }(), c09chunk("chunked-two-chunks", 2), c09chunk("chunked-three-chunks", 3),
+			{Pkg: "./handlers/memcached/batched", Func: "ZZBatchedStep", Name: "batched-gete-ttl", Only: []string{"c06-same-data"}, Reach: []string{"step-done"}, Bounds: "gete through the batching pool reports the same remaining TTL as a direct connection (see C06)"}}})
 
 	c08only := []string{"c08-"}
 	rb8 := "pipeline of 2 requests as bytes through the real parser, DefaultServer.Loop, orca (9 configurations), real responder; first request: every supported kind (binary: 23 incl. quiet variants, quiet-get batches closed by get/no-op, gete, gat, version, quit; text: 15 incl. 1-3 key gets, unknown command, bad numeric field), second: 2-key get / set / delete; arbitrary valid two-tier start state over 2 keys; values, flags, TTLs, opaques symbolic"
@@ -228,7 +233,6 @@ func init() {
 		"half-open TCP connections and slow clients are outside the claim",
 	}, stdAssumptions...),
 		Quick: []Job{{Pkg: "./zz_verif/orcah", Func: "ZZDisconnect", Reach: []string{"first-client-gone", "second-client-served"}, Bounds: "real server.ListenAndServe + DefaultServer.Loop + parsers + orcas + std handlers; 4 streams x every cut offset (0..len) x 4 orchestrator configurations x key in L1 or not"}}})
-
 	reg(Check{ID: "C14", Level: "model_checking", Assumptions: append([]string{
 		"claimed part: (a) pool discipline -- an object has arbitrary contents from the moment it is returned to its sync.Pool (havoc on release and on reuse), and putting an object that is already pooled is reported; under that model the whole-stack, wire-level and chunked-handler harnesses still produce the reference replies; (b) one handler instance (own backend connections) per client connection in ListenAndServe, also when a client sends its first byte after a later client was accepted; (c) two connections without lock wrapper on different keys, every interleaving at backend calls: each sees the replies it would see alone",
 		"not claimed: data-race freedom in the sense of the Go memory model over real schedules of many connections (the engine has no happens-before model of the runtime); metrics internals (C18)",
@@ -243,7 +247,14 @@ func init() {
 				Bounds: "two connections (L1L2 and L1L2 / L1L2Batch, no lock wrapper) on different keys: A sets key 0, B issues any of the 9 commands on key 1; every interleaving at backend calls"},
 			{Pkg: "./zz_verif/orcah", Func: "ZZLockedConcurrent", Name: "disjoint-keys-get", Params: map[string]int64{"nk": 2, "disjoint": 1, "a.cmd": 8}, Sched: true, SchedKinds: "rt,lock,unlock", SchedSkipPkgs: "github.com/netflix/rend/metrics", Reach: []string{"both-done"},
 				Bounds: "the same with A getting key 0"},
-		}})
+		},
+		Thorough: func() []Job {
+			var js []Job
+			for k := int64(1); k < 8; k++ {
+				js = append(js, Job{Pkg: "./zz_verif/orcah", Func: "ZZLockedConcurrent", Name: "disjoint-keys-a" + itoa(k), Params: map[string]int64{"nk": 2, "disjoint": 1, "a.cmd": k}, Sched: true, SchedKinds: "rt,lock,unlock", SchedSkipPkgs: "github.com/netflix/rend/metrics", Reach: []string{"both-done"}, Bounds: "disjoint keys, first connection's command fixed per job (add replace append prepend delete touch gat)"})
+			}
+			return append(js, replies("pool-havoc-wire-text", map[string]int64{"pipeline": 1, "poolhavoc": 1, "text": 1}, nil, "wire level, text protocol, pooled objects arbitrary after release"))
+		}()})
 
 	bjob := func(fn, name string, params map[string]int64, reach []string, bounds string) Job {
 		return Job{Pkg: "./handlers/memcached/batched", Func: fn, Name: name, Params: params, Reach: reach, Bounds: bounds}
@@ -257,7 +268,8 @@ func init() {
 		Quick: []Job{
 			bjob("ZZBatchedStep", "", nil, []string{"step-done"}, "one command (set add replace append prepend delete touch gat get gete; gets of 1-2 keys incl. duplicates, symbolic quiet flags and opaques) through the pool and over a direct std connection from equal arbitrary backend states (2 keys): same outcome, data, flags, remaining TTL, same backend state"),
 			bjob("ZZBatchedTwoCallers", "", nil, []string{"both-done"}, "two callers at once, their requests in one batch (A: any command on keys 0-1 incl. 2-key gets, B: any command on key 2): each receives what it would receive alone"),
-		}})
+		},
+		Thorough: []Job{bjob("ZZBatchedStep", "step-3keys-3getkeys", map[string]int64{"nk": 3, "getkeys": 3}, []string{"step-done"}, "as quick with 3 keys and gets of 1-3 keys")}})
 	reg(Check{ID: "C13", Level: "model_checking", Assumptions: append([]string{
 		"connection loss = the backend closes the pooled connection before / after / inside (5 cut positions) the reply to request 0..2 of the connection; reconnect() dials the (substituted) socket at once; back-off timing, refused reconnects and kernel-level detection of idle cuts are outside the claim",
 		"commands: get / gete of 1-3 keys over 2 keys (duplicates, every quiet pattern), set, touch with relative TTL (the transparent retry is at-least-once by design: non-idempotent commands are outside the bound)",
@@ -313,7 +325,8 @@ func init() {
 		Quick: []Job{
 			{Pkg: "./handlers/inmem", Func: "ZZStep", Reach: []string{"step-done"}, Bounds: "10 command kinds (incl. 2-key get/gete) from every 2-key map state"},
 			{Pkg: "./handlers/inmem", Func: "ZZConcurrent", Sched: true, Race: true, Reach: []string{"both-done"}, Bounds: "2 goroutines x {set,add,delete,get,append,touch,gete} on one key, all schedules"},
-		}})
+		},
+		Thorough: []Job{{Pkg: "./handlers/inmem", Func: "ZZStep", Name: "ZZStep-3keys-2bytes", Params: map[string]int64{"nk": 3, "len0": 2}, Reach: []string{"step-done"}, Bounds: "10 command kinds from every 3-key map state, stored values 2 bytes"}}})
 }
 
 func itoa(n int64) string { return strconv.FormatInt(n, 10) }
